@@ -376,18 +376,7 @@ AUDIT = {
         ('assert_eq on the base points of two generator sets created for the same ciphersuite (both are CS::P1)', fp_append_same_suite),
     U + 'i2osp#overflow:x>>(8 Mul N)': ('shift amount 8N < 64 on the branch N < 8', fp_i2osp),
     U + 'i2osp#panic:panic_fmt("i2osp overflow")': ('reachable only if x >= 2^(8N) with N < 8; callers with N < 8 bound the argument', fp_i2osp),
-    U + 'i2osp#copylen:copy_from_slice(tmp,tmp)': ('out[N-8..] and x.to_be_bytes() are both 8 bytes when N > 8', fp_i2osp),
-    U + 'i2osp#copylen:copy_from_slice(out,tmp)': ('N == 8 branch: both sides are 8 bytes', fp_i2osp),
-    U + 'i2osp#range:be_bytes[(8 Sub N)..]': ('N < 8 branch: 8 - N <= 8', fp_i2osp),
     U + 'i2osp#copylen:copy_from_slice(tmp,be_bytes)': ('N < 8 branch: out is N bytes, be_bytes[8-N..] is N bytes', fp_i2osp),
-    U + 'get_messages#bounds:messages[i]':
-        ('only called from core_proof_gen with indexes validated against len(messages)', fp_core_proof_gen_index_validation),
-    PF + 'proof_init#bounds:H_points[undisclosed_indexes]':
-        ('undisclosed indexes come from get_remaining_indexes(L, ..): all < L = len(H_points)', fp_remaining_elems_lt_length),
-    PF + 'proof_verify_init#bounds:H_points[index(..)]':
-        ('undisclosed indexes come from get_remaining_indexes(L, ..): all < L = len(H_points)', fp_remaining_elems_lt_length),
-    PF + 'proof_verify_init#bounds:H_points[disclosed_indexes]':
-        ('every disclosed index was compared with L - 1 in the validation loop', fp_validation_loop('disclosed_indexes')),
     PF + 'proof_verify_init#bounds:undisclosed_indexes[j]':
         ('counting argument: the complement of R indexes in 0..L has at least U = L - R elements', fp_counting_argument),
     PF + 'core_proof_gen::{closure#1}#overflow:tmp-1':
